@@ -602,15 +602,27 @@ Theorem C08_s3_request_returns_only_accepted : forall fl ign answers n s,
 Proof. exact request_returns_only_accepted. Qed.
 Print Assumptions C08_s3_request_returns_only_accepted.
 
-(* "a failed put is reported rather than swallowed" on the S3 store, for every status class: put_chunk raises,
-   put_chunk_noraise returns that error object, nothing reached the store; success only after a non-error answer *)
-Theorem C08_s3_refused_put_is_reported : forall rc answers,
+(* "a failed put is reported rather than swallowed" on the S3 store, for every status class of refusals (GUARD: every
+   answer is a 4xx / 5xx status or an attempt failing inside requests -- see the _refuted statement below for what
+   lies outside): put_chunk raises, put_chunk_noraise returns that error object, nothing reached the store; success
+   only after a non-error answer *)
+Theorem C08_s3_failed_put_is_reported_partial : forall rc answers,
   Forall (refusal []) answers ->
   (exists e, s3_put_chunk rc true answers = Raise e /\ isinst e K_ChunkStoreError = true
              /\ s3_put_chunk_noraise rc true answers = Ret (Some e))
   /\ stored_after (forcelist rc) (status_retries rc) answers = false.
 Proof. exact s3_refused_put_is_reported. Qed.
-Print Assumptions C08_s3_refused_put_is_reported.
+Print Assumptions C08_s3_failed_put_is_reported_partial.
+
+(* finding C08-F5g (open): a PUT answered 301 without a Location header (nothing for requests to follow) is not a 2xx,
+   yet success is reported and nothing is stored *)
+Theorem C08_s3_failed_put_is_reported_refuted :
+  exists s, accepted s = false /\ error_status s = false
+            /\ s3_put_chunk (default_retry 0) true [AStatus s] = Ret tt
+            /\ s3_put_chunk_noraise (default_retry 0) true [AStatus s] = Ret None
+            /\ stored_after (forcelist (default_retry 0)) (status_retries (default_retry 0)) [AStatus s] = false.
+Proof. exact failed_put_is_reported_refuted. Qed.
+Print Assumptions C08_s3_failed_put_is_reported_refuted.
 
 Theorem C08_s3_put_success_means_accepted : forall rc answers,
   s3_put_chunk_noraise rc true answers = Ret None ->
